@@ -32,9 +32,10 @@ import (
 type C08Case struct {
 	Client  string     `json:"client"` // tm | bsc | eth
 	Entries []C08Entry `json:"entries"`
-	Split   int        `json:"split"` // entries[:split] exist in the first version already
-	Gap     uint64     `json:"gap"`   // latest client height = second version's height + gap
-	Delay   uint64     `json:"delay"` // tm: seconds; eth: blocks; bsc: validator count (delay blocks = 2n/3+1)
+	Split   int        `json:"split"`           // entries[:split] exist in the first version already
+	Gap     uint64     `json:"gap"`             // latest client height = second version's height + gap
+	Below   int        `json:"below,omitempty"` // != 0: the latest height lies *below* the second recorded root (the client moved to a shorter branch)
+	Delay   uint64     `json:"delay"`           // tm: seconds; eth: blocks; bsc: validator count (delay blocks = 2n/3+1)
 	Queries []C08Query `json:"queries"`
 }
 
@@ -73,6 +74,7 @@ func genC08(t *rapid.T) C08Case {
 	}
 	c.Split = rapid.IntRange(0, n).Draw(t, "split")
 	c.Gap = rapid.SampledFrom([]uint64{0, 1, 2, 5, 15}).Draw(t, "gap")
+	c.Below = rapid.SampledFrom([]int{0, 0, 0, 0, 1}).Draw(t, "below")
 	c.Delay = rapid.SampledFrom([]uint64{0, 0, 1, 2, 3, 10, 21}).Draw(t, "delay")
 	nq := rapid.IntRange(1, 8).Draw(t, "nq")
 	for i := 0; i < nq; i++ {
@@ -192,6 +194,11 @@ func checkC08(c C08Case, col *Collector) outcome {
 	}
 	const h1, h2 = int64(7), int64(12) // heights at which the client recorded the two versions' roots
 	latest := uint64(h2) + c.Gap
+	if c.Below != 0 {
+		// a root is recorded at h2, but the client's latest height is lower (an ETH client that followed a branch up
+		// to h2 and was then given a competing header at a lower height keeps the abandoned branch's roots)
+		latest = uint64(h2) - 1 - c.Gap%4
+	}
 	var verify func(q C08Query, kind int, height exported.Height, proof []byte, src, dst string, seq uint64, claim []byte, now time.Time) error
 	var proofFor func(ver int, key []byte, otherContract bool) []byte
 	processed := map[int64]time.Time{}
@@ -420,7 +427,7 @@ func checkC08(c C08Case, col *Collector) outcome {
 		} else {
 			delayOK = latest-minU64(vh, latest) >= delayUnits
 		}
-		heightOK := q.Height == 0
+		heightOK := q.Height == 0 && vh <= latest
 		truth := stored != nil && heightOK && delayOK
 		if truth {
 			if kind == 2 {
@@ -486,6 +493,6 @@ func reorderProof(client string, proof []byte, aux int) []byte {
 
 func TestC08(t *testing.T) {
 	runProp(t, "C08",
-		"case = client type (tm / bsc / eth), 1-8 protocol entries (packet commitments, acks, clean points; channels over 5 chain names; sequences 1..2^64-1; hash values incl. ones with leading zero bytes) committed in two versions of the counterparty state (real IAVL multistore for tm; real go-ethereum account+storage tries for bsc/eth, slot = keccak256(path||uint256(104)), word = left-padded value), a client holding both roots at heights 7 and 12 with latest height 12+gap and a delay configuration (tm: time delay vs processed time to the nanosecond; eth: block delay; bsc: 2n/3+1 blocks), then 1-8 queries: entry or an absent neighbour (other sequence / channel / kind), claimed value right / bit-flipped / another entry's / shortened, proof genuine / of another key / from the other version / truncated / nodes reordered / byte-flipped / for another contract or store key, height with or without a recorded root or above the latest height; calls the exported VerifyPacketCommitment / Acknowledgement / CleanCommitment; oracle = the model of the two versions: completeness (genuine proof of the stored value at a recorded height with the delay elapsed => nil) and soundness (nil => the model stores exactly that value under that key at that height and the height/delay conditions hold); non-trivial = a genuine proof used with a perturbed claim (value, key, height or delay)",
+		"case = client type (tm / bsc / eth), 1-8 protocol entries (packet commitments, acks, clean points; channels over 5 chain names; sequences 1..2^64-1; hash values incl. ones with leading zero bytes) committed in two versions of the counterparty state (real IAVL multistore for tm; real go-ethereum account+storage tries for bsc/eth, slot = keccak256(path||uint256(104)), word = left-padded value), a client holding both roots at heights 7 and 12 with latest height 12+gap (one case in five: latest height 8..11, below the second recorded root) and a delay configuration (tm: time delay vs processed time to the nanosecond; eth: block delay; bsc: 2n/3+1 blocks), then 1-8 queries: entry or an absent neighbour (other sequence / channel / kind), claimed value right / bit-flipped / another entry's / shortened, proof genuine / of another key / from the other version / truncated / nodes reordered / byte-flipped / for another contract or store key, height with or without a recorded root or above the latest height; calls the exported VerifyPacketCommitment / Acknowledgement / CleanCommitment; oracle = the model of the two versions: completeness (genuine proof of the stored value at a recorded height with the delay elapsed => nil) and soundness (nil => the model stores exactly that value under that key at that height and the height/delay conditions hold); non-trivial = a genuine proof used with a perturbed claim (value, key, height or delay)",
 		genC08, checkC08)
 }
